@@ -24,9 +24,19 @@ Checks(r) ==
         rest == [i \in 1..(Len(got) - Len(pre)) |-> got[Len(pre) + i].ev]
         pending == DOMAIN exp.l \cup (IF exp.ret = "write" THEN {} ELSE {})
     IN (IF r.obs.ret = exp.ret THEN {} ELSE {"Return"})
-       \cup (IF pre = want THEN {} ELSE {"Delivered"})
+       \* events handed over and written, in order.  After a ONE-SHOT write failure the remaining groups of the same
+       \* clean-up are still handed over by the parser goroutine while Read (which has the error) returns and its
+       \* deferred Close() flushes the rest from another goroutine: their relative order is open, their presence not
+       \cup (IF r.fault.kind = "writefail" /\ exp.ret = "write"
+             THEN LET all == Evs(exp.delivered)
+                      k == r.fault.at
+                  IN IF /\ Len(got) >= k - 1
+                        /\ [i \in 1..(k - 1) |-> got[i].ev] = SubSeq(all, 1, k - 1)
+                        /\ \A j \in (k + 1)..Len(all) : \E i \in 1..Len(got) : got[i].ev = all[j]
+                     THEN {} ELSE {"Delivered"}
+             ELSE IF pre = want THEN {} ELSE {"Delivered"})
        \* whole groups: process arguments present exactly when the event has an EXECVE record, and they are its own
-       \cup (IF \A i \in 1..Len(pre) : got[i].args = HasE(r.shapes[got[i].ev]) /\ got[i].argok THEN {} ELSE {"Grouping"})
+       \cup (IF \A i \in 1..Len(got) : (\E j \in 1..Len(exp.delivered) : exp.delivered[j].ev = got[i].ev) => got[i].args = HasE(r.shapes[got[i].ev]) /\ got[i].argok THEN {} ELSE {"Grouping"})
        \* after a failure the parser may still take lines that were queued and Read's deferred Close() flushes
        \* what the reassembler holds: events of the scenario, nothing twice, nothing foreign
        \cup (IF (\A i \in 1..Len(rest) : rest[i] \in DOMAIN r.shapes)
